@@ -194,15 +194,16 @@ Proof.
     apply (wbytes_flat_map_lines []). intro l. unfold p_line. rewrite wbytes_mapW. reflexivity.
 Qed.
 
-Lemma fixed_plain o m : o_colour o = false -> f11_class o m = false -> m_kind m = KFixed ->
+Lemma fixed_plain o m : o_colour o = false -> m_kind m = KFixed ->
   (exists l, m_lines m = [l]) -> peq (print_fixedstruct o m) (decorate o m).
 Proof.
-  intros Hc Hf Hk [l Hl]. unfold f11_class in Hf. rewrite Hk, Hc in Hf. simpl in Hf.
+  intros Hc Hk [l Hl].
   unfold print_fixedstruct, decorate, decorate_plain, prefix. rewrite Hc.
-  destruct (o_file o), (o_date o); try discriminate;
-    unfold print_fixedstruct_, print_fixedstruct_prependdate, print_fixedstruct_prependfile, m_data, flat_lines;
+  destruct (o_file o), (o_date o);
+    unfold print_fixedstruct_, print_fixedstruct_prependdate, print_fixedstruct_prependfile,
+      print_fixedstruct_prependfile_prependdate, m_data, flat_lines;
     rewrite Hl; simpl; rewrite ?app_nil_r;
-    apply peq_by_norm; simpl; rewrite ?app_nil_r; reflexivity.
+    apply peq_by_norm; simpl; rewrite ?app_nil_r, <- ?app_assoc; reflexivity.
 Qed.
 
 Lemma data_plain_prepend (ff df : bytes) (dof dod : bool) (ls : list bytes) :
@@ -325,9 +326,9 @@ Proof.
 Qed.
 
 (* ---------------------------------------------------------------- C13 variants_agree *)
-Theorem variants_agree_peq o m : wf_full m -> f11_class o m = false -> peq (print_msg o m) (decorate o m).
+Theorem variants_agree_peq o m : wf_full m -> peq (print_msg o m) (decorate o m).
 Proof.
-  intros [Hwf Hsys] Hf. unfold print_msg. unfold wf_msg in Hwf.
+  intros [Hwf Hsys]. unfold print_msg. unfold wf_msg in Hwf.
   destruct (m_kind m) eqn:Hk; destruct (o_colour o) eqn:Hc.
   - apply sys_colour; assumption.
   - apply sys_plain; assumption.
@@ -339,22 +340,27 @@ Proof.
   - apply journal_plain; assumption.
 Qed.
 
-(* the refutation for the excluded dispatch: date field before file field *)
+(* regression: the variant as it was before /repo commit e7fb2a14 (datetime field written before
+   the file field) did NOT agree with the canonical decoration *)
+Definition old_print_fixedstruct_prependfile_prependdate (o : popts) (m : msg) : prog :=
+  [W (date_field o (m_t m)); W (o_ff o); W (m_data m); F].
+
 Definition f11_o : popts :=
   {| o_colour := false; o_file := true; o_date := true; o_ff := [102;58]%N; o_fmt := [37;89;58]%N; o_off := 0%Z |}.
 Definition f11_m : msg :=
   {| m_kind := KFixed; m_t := 0%Z; m_lines := [[[120;10]%N]]; m_beg := 0; m_end := 0 |}.
 
-Lemma f11_refuted :
-  wf_full f11_m /\ f11_class f11_o f11_m = true /\
-  sem_out (print_msg f11_o f11_m) None <> sem_out (decorate f11_o f11_m) None /\
-  payload (sem_out (print_msg f11_o f11_m) None) = [49;57;55;48;58;102;58;120;10]%N /\
+Lemma old_fixedstruct_variant_refuted :
+  wf_full f11_m /\
+  sem_out (old_print_fixedstruct_prependfile_prependdate f11_o f11_m) None <> sem_out (decorate f11_o f11_m) None /\
+  payload (sem_out (old_print_fixedstruct_prependfile_prependdate f11_o f11_m) None) = [49;57;55;48;58;102;58;120;10]%N /\
+  payload (sem_out (print_msg f11_o f11_m) None) = [102;58;49;57;55;48;58;120;10]%N /\
   payload (sem_out (decorate f11_o f11_m) None) = [102;58;49;57;55;48;58;120;10]%N.
 Proof.
   split; [|split; [|split; [|split]]].
   - split; [exists [[120;10]%N]; reflexivity | exact I].
-  - reflexivity.
   - vm_compute. discriminate.
+  - vm_compute. reflexivity.
   - vm_compute. reflexivity.
   - vm_compute. reflexivity.
 Qed.
